@@ -37,6 +37,12 @@ def scripted_id_reuse(w, origin, victim_hops):
                     w.deliver(w.net.inflight[-1].seq)
                     while w.net.inflight:
                         w.deliver(w.net.inflight[0].seq)
+                # cells for that id whose content the sender could not have encrypted (no keys): nothing changes, not even
+                # the entry's record of its last activity
+                w.inject("adv", n, c, "data")
+                w.deliver(w.net.inflight[-1].seq)
+                while w.net.inflight:
+                    w.deliver(w.net.inflight[0].seq)
                 # naming the key of every other node under a signature that does not verify, from the attacker's address
                 for claim in [m for m in w.names if m != n]:
                     w.forge_destroy("adv", n, c, claim=claim)
